@@ -259,6 +259,10 @@ class TunnelCommunity(Community):
 
         await self.request_cache.shutdown()
 
+        # The crypto endpoint registered itself as a listener on our behalf: it has to go as well.
+        if hasattr(self, "crypto_endpoint"):
+            self.crypto_endpoint.teardown_tunnels()
+
         await super().unload()
 
     def get_serializer(self) -> Serializer:
